@@ -1,5 +1,5 @@
 CFG = {
-    "coq_crosscheck": "build",
+    "coq_crosscheck": ['build'], "coq_crosscheck_n": 100,
     "group": "core",
     "level": "proof",
     "coq_targets": ["Properties/C01.vo", 'ParamsTie.vo'],
